@@ -68,6 +68,12 @@ def concretise(inv, a, files, rng, bins):
         argv += ["-p", "%s-%s-%s" % (rng.choice(["SE", "DC", "DS"]), sem, rng.choice(["foo", "1", "CO", sem]))]
     elif pc == "trailinghyphen":
         argv += ["-p", "%s-%s-" % (rng.choice(["SE", "se"]), sem)]
+    elif pc == "unicodefold":
+        # characters whose Unicode upper-/lower-casing yields ASCII letters: none of these strings is one of the 21 problems
+        name = "%s-%s" % (rng.choice(["SE", "DC", "DS"]), sem)
+        subs = [("S", "\u017f"), ("ST", "\ufb06"), ("ST", "\ufb05"), ("SS", "\u00df"), ("I", "\u0131"), ("s", "\u017f")]
+        cands = [name.replace(a, b, 1) for a, b in subs if a in name] + [name.lower().replace(a, b, 1) for a, b in subs if a in name.lower()]
+        argv += ["-p", rng.choice([c for c in cands if c != name and c != name.lower()] or ["\u017fE-GR"])]
     elif pc == "padded":
         argv += ["-p", rng.choice(["SE-%s ", " SE-%s", "SE -%s", "SE- %s"]) % sem]
     args = []
@@ -78,7 +84,10 @@ def concretise(inv, a, files, rng, bins):
         args = [k]
         argv += ["-a", lab(k)]
     elif ac == "toobig":
-        argv += ["-a", lab(n + 1)]
+        # beyond the last argument -- also by a multiple of 2^16 / 2^32 / 2^64 (an index must not be taken modulo anything)
+        k = rng.randint(1, n)
+        big = rng.choice([n + 1, n + 1, 65536 + k, 4294967296 + k, 18446744073709551616 + k, 99999999999999999999])
+        argv += ["-a", lab(big)]
     elif ac == "zero":
         argv += ["-a", "0"]
     elif ac == "negative":
@@ -229,7 +238,7 @@ def problems_events(bins):
 
 ICCMA_TEXT = {"cmt": "# a comment 1 2", "empty": "", "ws": "  ", "hdr": "p af 3", "hdr0": "p af 0", "hdrKind": "p cnf 3", "hdrP": "q af 3",
               "hdrNum": "p af x", "hdrNeg": "p af -1", "hdrShort": "p af", "a12": "1 2", "a23": "2 3", "a33": "3 3", "aOOR": "1 4",
-              "aZero": "0 1", "aOne": "1", "aThree": "1 2 3", "aNaN": "a b", "cmtBin": "# g\xe9n\xe9r\xe9 par un outil", "aBin": "1 \xe92"}
+              "aZero": "0 1", "aOne": "1", "aThree": "1 2 3", "aNaN": "a b", "cmtBin": "# g\xe9n\xe9r\xe9 par un outil", "aBin": "1 \xe92", "aWrap64": "18446744073709551618 3", "aWrap32": "1 4294967298"}
 APX_TEXT = {"argA": "arg(a).", "argB": "arg(b).", "argC": "arg(c).", "argSp": "arg( a ).", "argBad": "arg(1a).", "attAB": "att(a,b).",
             "attBC": "att(b,c).", "attCC": "att(c,c).", "attSp": "att( a , b ).", "attUnd": "att(a,z).", "attOne": "att(a).",
             "attThree": "att(a,b,c).", "attBad": "att(a,1b).", "junk": "hello.", "nodot": "arg(a)", "empty": "", "ws": "   "}
@@ -285,7 +294,23 @@ def _run_fault(job):
     return ev
 
 
-def fault_events(afs, workdir, bins, seed, fakesat, per_af=10):
+def megabyte_instances(seed, count):
+    """instances whose ICCMA file exceeds 1 MiB: 95 000-140 000 arguments, a few hundred thousand attack lines among the first thousands of them
+    being too slow to solve is not the point -- nearly all arguments are isolated, the tail holds chains and 2-cycles, comments pad the file"""
+    rng = random.Random(seed)
+    res = []
+    for _ in range(count):
+        n = rng.randint(95000, 140000)
+        att = []
+        a = n - rng.randint(20, 60)
+        while a + 1 < n:
+            att += [(a, a + 1), (a + 1, a)] if rng.random() < 0.5 else [(a, a + 1)]
+            a += rng.choice([1, 2])
+        res.append({"n": n, "att": [[x, y] for x, y in sorted(set(att))], "tag": "megabyte"})
+    return res
+
+
+def fault_events(afs, workdir, bins, seed, fakesat, per_af=10, big=False):
     """C17 at the command line: `crustabri solve --external-sat-solver fakesat` whose K-th call (or every call) fails; the number of calls
     actually made is read from fakesat's counter file, so a query that never reaches the failing call is not judged"""
     rng = random.Random(seed)
@@ -297,9 +322,19 @@ def fault_events(afs, workdir, bins, seed, fakesat, per_af=10):
     for idx, a in enumerate(afs):
         if a["n"] == 0:
             continue
-        files = write_files(a, d, idx)
-        segs.append([{"ev": "af", "idx": idx, "n": a["n"], "args": list(range(1, a["n"] + 1)), "ids": [], "att": a["att"], "present": "file",
-                      "tag": a.get("tag", ""), "sems": []}])
+        if big:
+            # the file is padded with comment lines beyond 1 MiB; the judge is not given the 10^5 arguments (only exit status and stdout count)
+            path = os.path.join(d, "big%d_%d.af" % (seed, idx))
+            with open(path, "w") as fh:
+                fh.write("p af %d\n" % a["n"])
+                fh.write("# padding padding padding padding padding padding padding padding padding padding\n" * 14000)
+                fh.write("".join("%d %d\n" % (x, y) for x, y in a["att"]))
+            files = {("iccma", "good"): path}
+            segs.append([{"ev": "af", "idx": idx, "n": a["n"], "args": [], "ids": [], "att": [], "present": "file", "tag": "megabyte", "sems": [], "big": True}])
+        else:
+            files = write_files(a, d, idx)
+            segs.append([{"ev": "af", "idx": idx, "n": a["n"], "args": list(range(1, a["n"] + 1)), "ids": [], "att": a["att"], "present": "file",
+                          "tag": a.get("tag", ""), "sems": []}])
         selfatt = [x for x, y in a["att"] if x == y]
         for _ in range(per_af):
             j += 1
@@ -311,7 +346,7 @@ def fault_events(afs, workdir, bins, seed, fakesat, per_af=10):
             args = []
             if kind != "SE":
                 # self-attacking arguments are queried more often than their share (answers that need no SAT call)
-                x = rng.choice(selfatt) if selfatt and rng.random() < 0.4 else rng.randint(1, a["n"])
+                x = rng.choice(selfatt) if selfatt and rng.random() < 0.4 else rng.randint(a["n"] - 15 if big else 1, a["n"])
                 args = [x]
                 argv += ["-a", str(x)]
             if cert:
@@ -319,7 +354,7 @@ def fault_events(afs, workdir, bins, seed, fakesat, per_af=10):
             enc = rng.choice([None, "aux_var", "exp", "hybrid"])
             if enc:
                 argv += ["--encoding", enc]
-            ctr = os.path.join(d, "ctr_%d" % j)
+            ctr = os.path.join(d, "ctr_%d_%d" % (seed, j))
             argv += ["--external-sat-solver", fakesat, "--external-sat-solver-opt=--counter", "--external-sat-solver-opt=" + ctr,
                      "--external-sat-solver-opt=--mode", "--external-sat-solver-opt=" + (mode if mode.startswith("failat") else "failat:1:" + mode)]
             jobs.append((argv, ctr, {"sem": sem, "kind": kind, "args": args, "cert": cert, "mode": mode, "at": at}))
